@@ -77,6 +77,7 @@ type Harness struct {
 	havocFuncs map[string]*ssa.Function
 	havocField []substrFn
 	sliceLens  []substrInt
+	terminates []substrInt // //verif:terminates <function substring> <max loop iterations per frame>
 	nilables   []string
 	nonnil     []string
 	oidPools   []substrList
@@ -95,6 +96,19 @@ func (h *Harness) mergeable(fn *ssa.Function) bool {
 	}
 	return false
 }
+func (h *Harness) terminationBound(fn *ssa.Function) int {
+	if len(h.terminates) == 0 {
+		return 0
+	}
+	name := fn.String()
+	for _, t := range h.terminates {
+		if strings.Contains(name, t.sub) {
+			return t.n
+		}
+	}
+	return 0
+}
+
 func (h *Harness) sliceBound(name string) int {
 	best, bl := 2, -1
 	for _, s := range h.sliceLens {
@@ -515,6 +529,9 @@ func (h *Harness) apply(fd *fileDirectives, pkg *ssa.Package) {
 				n, _ = strconv.Atoi(t[3])
 			}
 			h.sliceLens = append(h.sliceLens, substrInt{t[1], n})
+		case "terminates":
+			n, _ := strconv.Atoi(t[2])
+			h.terminates = append(h.terminates, substrInt{t[1], n})
 		case "nilable":
 			h.nilables = append(h.nilables, t[1])
 		case "nonnil":
@@ -641,6 +658,8 @@ func (m *M) runPath(prefix []dec) (res pathResult) {
 					m.report("deadlock", "DEADLOCK", p.why, "", "", "")
 				case strings.HasPrefix(p.why, "PROCESS-ABORT"):
 					m.report("abort", "PROCESS-ABORT", p.why, "", "", "")
+				case strings.HasPrefix(p.why, "HANG"):
+					m.report("hang", "HANG", p.why, "", "", "")
 				}
 			case mergeAbort:
 				panic(engineErr("merge abort escaped: " + p.why))
